@@ -124,6 +124,8 @@ def isolated(fn, *args, **kw):
         code = 0
         try:
             os.close(r)
+            # whatever the library prints (verbose options, warnings of helper functions) is not part of the verdict
+            sys.stdout = open(os.devnull, "w")
             try:
                 payload = pickle.dumps(("ok", fn(*args, **kw)), protocol=pickle.HIGHEST_PROTOCOL)
             except HarnessAbort as e:
